@@ -36,6 +36,14 @@ fn is_option(ty: &Type) -> bool {
     )
 }
 
+/// does `path` name the generic parameter `param`: the parameter itself or something reached through it (`T::Item`)
+fn names_param(param: &str, path: &str) -> bool {
+    path == param
+        || path
+            .strip_prefix(param)
+            .map_or(false, |rest| rest.starts_with("::"))
+}
+
 fn get_array_lens(ty: &Type) -> Vec<String> {
     let mut ret = if let Category::Array {
         len: Some(ConstValType::Named(val)),
@@ -155,9 +163,9 @@ pub(crate) fn derive_struct_diff_struct(struct_: &Struct) -> TokenStream {
             let field_name = field.field_name.as_ref().unwrap();
             // raw identifiers (`r#type`) cannot be spliced into longer identifiers
             let field_ident = field_name.trim_start_matches("r#");
-            used_generics.extend(struct_.generics.iter().filter(|x| x.full() == field.ty.ident.path(&field.ty, false)));
+            used_generics.extend(struct_.generics.iter().filter(|x| names_param(&x.full(), &field.ty.ident.path(&field.ty, false))));
 
-            let to_add = struct_.generics.iter().filter(|x| field.ty.wraps().iter().find(|&wrapped_type| &x.full() == wrapped_type ).is_some());
+            let to_add = struct_.generics.iter().filter(|x| field.ty.wraps().iter().find(|&wrapped_type| names_param(&x.full(), wrapped_type) ).is_some());
             used_generics.extend(to_add);
 
             used_generics.extend(get_used_lifetimes(&field.ty).into_iter().filter_map(|x| match struct_generics_names_hash.contains(&x) {
@@ -1343,13 +1351,13 @@ pub(crate) fn derive_struct_diff_enum(enum_: &Enum) -> TokenStream {
             enum_
                 .generics
                 .iter()
-                .filter(|x| x.full() == ty.ident.path(&ty, false)),
+                .filter(|x| names_param(&x.full(), &ty.ident.path(&ty, false))),
         );
 
         let to_add = enum_.generics.iter().filter(|x| {
             ty.wraps()
                 .iter()
-                .find(|&wrapped_type| &x.full() == wrapped_type)
+                .find(|&wrapped_type| names_param(&x.full(), wrapped_type))
                 .is_some()
         });
         used_generics.extend(to_add);
